@@ -13,7 +13,7 @@
               value, or a fail-closed range comparison of it, dominates the index
 """
 from mir import callee, callee_names
-from an import (SliceInfo, ret_blocks, edge_fail_closed, where, true_edges_of_call, root_local, defs_of)
+from an import (SliceInfo, ret_blocks, edge_fail_closed, where, true_edges_of_call, root_local, defs_of, cond_switches)
 from env import engine, CTX, CIRC, find_owner
 from chan import PRIMS
 from common import fl
@@ -435,54 +435,6 @@ def _switch_after_call(b, bi):
     return None
 
 
-
-def cond_switches(b):
-    """For every switch of b: the statement / call that computes its condition, found through plain moves, `!`,
-    and fields of a tuple of flags (`match (a == b, v.is_empty()) { .. }`):
-    ({(block, stmt idx): [switch block]}, {call block: [switch block]})."""
-    by_stmt, by_call = {}, {}
-    for sb, blk in enumerate(b.blocks):
-        t = blk["t"]
-        if t["k"] != "switch" or t["o"]["k"] == "const" or sb not in b.live_blocks():
-            continue
-        p = t["o"]["p"]
-        cur, fld = p["l"], None
-        if p["pr"]:
-            if len(p["pr"]) == 1 and isinstance(p["pr"][0], dict) and "f" in p["pr"][0]:
-                fld = p["pr"][0]["f"]
-            else:
-                continue
-        for _ in range(8):
-            ds = defs_of(b, cur)
-            if len(ds) != 1:
-                break
-            dbi, si, r = ds[0]
-            if si == "t":
-                if fld is None:
-                    by_call.setdefault(dbi, []).append(sb)
-                break
-            if fld is not None:
-                if r["k"] == "agg" and r.get("ak") == "tuple" and fld < len(r["ops"]) and r["ops"][fld]["k"] != "const" and not r["ops"][fld]["p"]["pr"]:
-                    cur, fld = r["ops"][fld]["p"]["l"], None
-                    continue
-                break
-            if r["k"] == "bin":
-                by_stmt.setdefault((dbi, si), []).append(sb)
-                break
-            if r["k"] == "use" and r["o"]["k"] != "const":
-                op = r["o"]["p"]
-                if not op["pr"]:
-                    cur = op["l"]
-                    continue
-                if len(op["pr"]) == 1 and isinstance(op["pr"][0], dict) and "f" in op["pr"][0]:
-                    cur, fld = op["l"], op["pr"][0]["f"]
-                    continue
-                break
-            if r["k"] == "un" and r["a"]["k"] != "const" and not r["a"]["p"]["pr"]:
-                cur = r["a"]["p"]["l"]
-                continue
-            break
-    return by_stmt, by_call
 
 def b_is_adaptor_call(b, bi):
     t = b.blocks[bi]["t"]
